@@ -14,15 +14,31 @@ fn main() {
         .filter(|n| n != "mod")
         .collect();
     names.sort();
+    // a suite file whose first lines contain "build: no-xen" uses APIs that do not exist in the Xen
+    // flavour of the crate (e.g. MmapRegionBuilder) and is left out of xen builds
+    let no_xen: Vec<bool> = names
+        .iter()
+        .map(|n| {
+            let t = fs::read_to_string(dir.join(format!("{}.rs", n))).unwrap_or_default();
+            t.lines().take(12).any(|l| l.contains("build: no-xen"))
+        })
+        .collect();
     let mut out = String::new();
-    for n in &names {
-        let cfg = if n.ends_with("_xen") { "#[cfg(feature = \"xen\")] " } else { "" };
-        out += &format!("{}#[path = \"{}/{}.rs\"] pub mod {};\n", cfg, dir.display(), n, n);
+    let cfg_of = |i: usize, n: &String| -> &'static str {
+        if n.ends_with("_xen") {
+            "#[cfg(feature = \"xen\")] "
+        } else if no_xen[i] {
+            "#[cfg(not(feature = \"xen\"))] "
+        } else {
+            ""
+        }
+    };
+    for (i, n) in names.iter().enumerate() {
+        out += &format!("{}#[path = \"{}/{}.rs\"] pub mod {};\n", cfg_of(i, n), dir.display(), n, n);
     }
     out += "pub fn table() -> Vec<(&'static str, crate::Suite)> { let mut v: Vec<(&'static str, crate::Suite)> = Vec::new();\n";
-    for n in &names {
-        let cfg = if n.ends_with("_xen") { "#[cfg(feature = \"xen\")] " } else { "" };
-        out += &format!("{} {{ for s in {}::SUITES {{ v.push((s.name, *s)); }} }}\n", cfg, n);
+    for (i, n) in names.iter().enumerate() {
+        out += &format!("{} {{ for s in {}::SUITES {{ v.push((s.name, *s)); }} }}\n", cfg_of(i, n), n);
     }
     out += "v }\n";
     fs::write(Path::new(&env::var("OUT_DIR").unwrap()).join("suites.rs"), out).unwrap();
